@@ -774,6 +774,13 @@ def run_sequence(ctx: Ctx, Time, kind, sizes, ops_symbolic, rng, exhaustive):
         check_object(ctx, w, x, "history", case)
     # index semantics against plain list indexing; re-execution independence
     for (op, r, state) in results:
+        if op[0] in ("getint", "getell", "getsel", "subset", "copy", "view", "iter") and r[0] in ("A", "M"):
+            # what is taken out of an array is in the scale and the format of that array
+            par = w.arrs[op[1]]
+            for x in ([r[2]] if r[0] == "A" else r[2]):
+                if (x.fmt, x.scale) != (par.fmt, par.scale):
+                    ctx.violate(f"fmt-scale:{op[0]}", f"{op_token(op)} on a {par.scale}/{par.fmt} array gave a {x.scale}/{x.fmt} result", case)
+                    break
         if op[0] in ("getsel", "subset") and r[0] == "A":
             parent = w.obs(w.arrs[op[1]])
             pos = py_positions(op[2], len(parent[1]))
@@ -819,7 +826,7 @@ def run_sequence(ctx: Ctx, Time, kind, sizes, ops_symbolic, rng, exhaustive):
             o = [float(a) + float(b) for a, b in zip(np.atleast_1d(x.jd1), np.atleast_1d(x.jd2))]
             return (not (len(o) >= 3 and any(a > b for a, b in zip(o, o[1:]))), -len(o))
         cand = sorted(cand, key=_prio)
-    for x in (cand[:5] if kind == "leap" else rng.sample(cand, min(1, len(cand)))):
+    for x in (cand[:5] if kind == "leap" else rng.sample(cand, min(1, len(cand))) if exhaustive is False or rng.random() < 0.03 else []):
         check_scale_commutes(ctx, x, case)
     ctx.count("cross-scale-shadow-same-jd", w.shadowed) if w.shadowed else None
     ctx.count("scale-conversion-from-the-memo(no new array)", w.cached_scale) if w.cached_scale else None
